@@ -40,16 +40,16 @@ class PointTopologyFromEdgesSubarray(PointTopology, MeshSubarray):
                 itself at the start.
 
         """
-        nodes = sorted(
-            set(
-                node_connectivity[np.where(node_connectivity == node)[0]]
-                .flatten()
-                .tolist()
-            )
+        nodes = set(
+            node_connectivity[np.where(node_connectivity == node)[0]]
+            .flatten()
+            .tolist()
         )
 
-        # Move 'node' to the front of the list
-        nodes.remove(node)
+        # Move 'node' to the front of the list (a node that is not
+        # part of any edge is connected only to itself)
+        nodes.discard(node)
+        nodes = sorted(nodes)
         nodes.insert(0, node)
 
         return nodes
